@@ -7,6 +7,13 @@
 #include <sys/time.h>
 #include "hx.h"
 
+/* C08 cost meter gating: library work is metered only between entry to and return from a driver API call, and never
+ * while a harness callback or monitor runs (they call instrumented library accessors themselves) */
+extern int hx_cost_on, hx_cost_armed;
+static inline void cost_resume(int *saved) { hx_cost_on = *saved; }
+#define COST_PAUSE int cost_saved __attribute__((cleanup(cost_resume))) = hx_cost_on; hx_cost_on = 0
+#define COST_API(stmt) do { hx_cost_on = hx_cost_armed; stmt; hx_cost_on = 0; } while (0)
+
 #define BODY_KEEP (1u << 20)
 
 typedef struct {
@@ -440,7 +447,7 @@ TXCB(cb_request_start, HK_REQUEST_START, 0, RK_START, 1)
 TXCB(cb_request_uri_normalize, HK_REQUEST_URI_NORMALIZE, 0, RK_URI, 1)
 TXCB(cb_request_line, HK_REQUEST_LINE, 0, RK_LINE, 1)
 TXCB(cb_request_trailer, HK_REQUEST_TRAILER, 0, RK_TRAILER, 1)
-static int cb_response_start(htp_tx_t *tx) {
+static int cb_response_start(htp_tx_t *tx) { COST_PAUSE;
     runctx *x = cur; if (!x) return HTP_OK;
     memset(x->dec, 0, sizeof x->dec);   /* decompressor objects are per message; their addresses get reused */
     on_tx_event(x, HK_RESPONSE_START, tx, 1, RK_START, 1);
@@ -452,14 +459,14 @@ TXCB(cb_response_trailer, HK_RESPONSE_TRAILER, 1, RK_TRAILER, 1)
 static int cb_tx_req_body(htp_tx_data_t *d);
 static int cb_tx_res_body(htp_tx_data_t *d);
 
-static int cb_request_headers(htp_tx_t *tx) {
+static int cb_request_headers(htp_tx_t *tx) { COST_PAUSE;
     runctx *x = cur; if (!x) return HTP_OK;
     on_tx_event(x, HK_REQUEST_HEADERS, tx, 0, RK_HEADERS, 1);
     if (x->c->cfg[CF_TX_HOOKS] && tx) htp_tx_register_request_body_data(tx, cb_tx_req_body);
     return scripted_rc(x, HK_REQUEST_HEADERS);
 }
 
-static int cb_response_headers(htp_tx_t *tx) {
+static int cb_response_headers(htp_tx_t *tx) { COST_PAUSE;
     runctx *x = cur; if (!x) return HTP_OK;
     on_tx_event(x, HK_RESPONSE_HEADERS, tx, 1, RK_HEADERS, 1);
     if (x->c->cfg[CF_TX_HOOKS] && tx) htp_tx_register_response_body_data(tx, cb_tx_res_body);
@@ -491,21 +498,21 @@ static void end_of_side(runctx *x, txrec *t, int side) {
         viol(x, "C06", side == 0 ? "req_no_end_marker" : "res_no_end_marker", "tx %d completed a message with a body without an end-of-body marker", t->ord);
 }
 
-static int cb_request_complete(htp_tx_t *tx) {
+static int cb_request_complete(htp_tx_t *tx) { COST_PAUSE;
     runctx *x = cur; if (!x) return HTP_OK;
     txrec *t = on_tx_event(x, HK_REQUEST_COMPLETE, tx, 0, RK_COMPLETE, 1);
     if (t) { t->complete_cb[0]++; end_of_side(x, t, 0); }
     return scripted_rc(x, HK_REQUEST_COMPLETE);
 }
 
-static int cb_response_complete(htp_tx_t *tx) {
+static int cb_response_complete(htp_tx_t *tx) { COST_PAUSE;
     runctx *x = cur; if (!x) return HTP_OK;
     txrec *t = on_tx_event(x, HK_RESPONSE_COMPLETE, tx, 1, RK_COMPLETE, 1);
     if (t) { t->complete_cb[1]++; end_of_side(x, t, 1); }
     return scripted_rc(x, HK_RESPONSE_COMPLETE);
 }
 
-static int cb_transaction_complete(htp_tx_t *tx) {
+static int cb_transaction_complete(htp_tx_t *tx) { COST_PAUSE;
     runctx *x = cur; if (!x) return HTP_OK;
     txrec *t = on_tx_event(x, HK_TRANSACTION_COMPLETE, tx, 0, 0, 0);
     int rc = scripted_rc(x, HK_TRANSACTION_COMPLETE);
@@ -584,28 +591,28 @@ static int data_event(runctx *x, int hk, htp_tx_data_t *d, int side, int is_body
     return scripted_rc(x, hk);
 }
 
-static int cb_request_header_data(htp_tx_data_t *d) { runctx *x = cur; if (!x) return HTP_OK; return data_event(x, HK_REQUEST_HEADER_DATA, d, 0, 0); }
-static int cb_request_trailer_data(htp_tx_data_t *d) { runctx *x = cur; if (!x) return HTP_OK; return data_event(x, HK_REQUEST_TRAILER_DATA, d, 0, 0); }
-static int cb_request_body_data(htp_tx_data_t *d) { runctx *x = cur; if (!x) return HTP_OK; return data_event(x, HK_REQUEST_BODY_DATA, d, 0, 1); }
-static int cb_response_header_data(htp_tx_data_t *d) { runctx *x = cur; if (!x) return HTP_OK; return data_event(x, HK_RESPONSE_HEADER_DATA, d, 1, 0); }
-static int cb_response_trailer_data(htp_tx_data_t *d) { runctx *x = cur; if (!x) return HTP_OK; return data_event(x, HK_RESPONSE_TRAILER_DATA, d, 1, 0); }
-static int cb_response_body_data(htp_tx_data_t *d) { runctx *x = cur; if (!x) return HTP_OK; return data_event(x, HK_RESPONSE_BODY_DATA, d, 1, 1); }
+static int cb_request_header_data(htp_tx_data_t *d) { COST_PAUSE; runctx *x = cur; if (!x) return HTP_OK; return data_event(x, HK_REQUEST_HEADER_DATA, d, 0, 0); }
+static int cb_request_trailer_data(htp_tx_data_t *d) { COST_PAUSE; runctx *x = cur; if (!x) return HTP_OK; return data_event(x, HK_REQUEST_TRAILER_DATA, d, 0, 0); }
+static int cb_request_body_data(htp_tx_data_t *d) { COST_PAUSE; runctx *x = cur; if (!x) return HTP_OK; return data_event(x, HK_REQUEST_BODY_DATA, d, 0, 1); }
+static int cb_response_header_data(htp_tx_data_t *d) { COST_PAUSE; runctx *x = cur; if (!x) return HTP_OK; return data_event(x, HK_RESPONSE_HEADER_DATA, d, 1, 0); }
+static int cb_response_trailer_data(htp_tx_data_t *d) { COST_PAUSE; runctx *x = cur; if (!x) return HTP_OK; return data_event(x, HK_RESPONSE_TRAILER_DATA, d, 1, 0); }
+static int cb_response_body_data(htp_tx_data_t *d) { COST_PAUSE; runctx *x = cur; if (!x) return HTP_OK; return data_event(x, HK_RESPONSE_BODY_DATA, d, 1, 1); }
 
 /* tx-level body hooks see the same data as the cfg-level ones; only touch the bytes and count */
-static int cb_tx_req_body(htp_tx_data_t *d) {
+static int cb_tx_req_body(htp_tx_data_t *d) { COST_PAUSE;
     runctx *x = cur; if (!x) return HTP_OK;
     if (d && d->data) touch(d->data, d->len, 0);
     if (d && d->tx && tx_find(x, d->tx) == NULL) viol(x, "C01", "unknown_tx_in_callback", "TX_REQUEST_BODY_DATA");
     return scripted_rc(x, HK_TX_REQUEST_BODY_DATA);
 }
-static int cb_tx_res_body(htp_tx_data_t *d) {
+static int cb_tx_res_body(htp_tx_data_t *d) { COST_PAUSE;
     runctx *x = cur; if (!x) return HTP_OK;
     if (d && d->data) touch(d->data, d->len, 0);
     if (d && d->tx && tx_find(x, d->tx) == NULL) viol(x, "C01", "unknown_tx_in_callback", "TX_RESPONSE_BODY_DATA");
     return scripted_rc(x, HK_TX_RESPONSE_BODY_DATA);
 }
 
-static int cb_request_file_data(htp_file_data_t *d) {
+static int cb_request_file_data(htp_file_data_t *d) { COST_PAUSE;
     runctx *x = cur; if (!x) return HTP_OK;
     if (d != NULL) {
         if (d->data != NULL) touch(d->data, d->len, 0);
@@ -620,11 +627,11 @@ static int cb_request_file_data(htp_file_data_t *d) {
     return scripted_rc(x, HK_REQUEST_FILE_DATA);
 }
 
-static int cb_declined_tx(htp_tx_t *tx) { (void) tx; return HTP_DECLINED; }
-static int cb_declined_data(htp_tx_data_t *d) { (void) d; return HTP_DECLINED; }
-static int cb_declined_file(htp_file_data_t *d) { (void) d; return HTP_DECLINED; }
+static int cb_declined_tx(htp_tx_t *tx) { COST_PAUSE; (void) tx; return HTP_DECLINED; }
+static int cb_declined_data(htp_tx_data_t *d) { COST_PAUSE; (void) d; return HTP_DECLINED; }
+static int cb_declined_file(htp_file_data_t *d) { COST_PAUSE; (void) d; return HTP_DECLINED; }
 
-static int cb_log(htp_log_t *log) {
+static int cb_log(htp_log_t *log) { COST_PAUSE;
     runctx *x = cur; if (!x) return HTP_OK;
     x->r->st.callbacks[HK_LOG]++;
     if (log == NULL || log->msg == NULL) return HTP_OK;
@@ -641,7 +648,7 @@ static int cb_log(htp_log_t *log) {
     return HTP_OK;
 }
 
-void htp_verif_trace(const void *connp, int site, int64_t a, int64_t b) {
+void htp_verif_trace(const void *connp, int site, int64_t a, int64_t b) { COST_PAUSE;
     (void) connp; (void) a; (void) b;
     runctx *x = cur;
     if (!x || site < 0 || site >= 16) return;
@@ -790,12 +797,14 @@ static void boundary_checks(runctx *x) {
     if (p->conn->out_data_counter != x->offered[1])
         viol(x, "C09", "out_data_counter", "out_data_counter %lld, %lld bytes offered", (long long) p->conn->out_data_counter, (long long) x->offered[1]);
     /* C05: progress of every live transaction */
+    size_t cursor = 0;   /* records and list are both in creation order: one merged walk, full rescan only on a miss */
     for (int i = 0; i < x->ntx; i++) {
         txrec *t = &x->tx[i];
         if (!t->live) continue;
         /* the tx must still be in the connection's list (otherwise the pointer may be stale) */
         int found = 0;
-        for (size_t k = 0; k < ntx; k++) if (htp_list_get(p->conn->transactions, k) == t->ptr) { found = 1; break; }
+        for (size_t k = cursor; k < ntx; k++) if (htp_list_get(p->conn->transactions, k) == t->ptr) { found = 1; cursor = k + 1; break; }
+        if (!found) for (size_t k = 0; k < ntx && k < cursor; k++) if (htp_list_get(p->conn->transactions, k) == t->ptr) { found = 1; break; }
         if (!found) { t->live = 0; continue; }
         progress_sample(x, t);
     }
@@ -834,7 +843,13 @@ static int feed(runctx *x, int d) {
     if (c->gap) x->r->st.gaps++;
     x->offered_before[d] = x->offered[d];
     if (!guard_skip) x->offered[d] += (int64_t) len;
-    int rc = d == 0 ? htp_connp_req_data(p, &tv, data, len) : htp_connp_res_data(p, &tv, data, len);
+    if (hx_cost_armed) {
+        /* what the parser holds from earlier calls: the property allows work proportional to it on every call */
+        extern uint64_t hx_cost_buffered;
+        hx_cost_buffered += p->in_buf_size + p->out_buf_size + (p->in_header ? bstr_len(p->in_header) : 0) + (p->out_header ? bstr_len(p->out_header) : 0);
+    }
+    int rc;
+    COST_API(rc = d == 0 ? htp_connp_req_data(p, &tv, data, len) : htp_connp_res_data(p, &tv, data, len));
     size_t consumed = d == 0 ? htp_connp_req_data_consumed(p) : htp_connp_res_data_consumed(p);
     x->cur_dir = 0;
     x->cur_sticky = 0;
@@ -895,7 +910,7 @@ static void destroy_done(runctx *x) {
         if (htp_tx_is_complete(tx) != 1) continue;
         txrec *t = tx_find(x, tx);
         if (t) tx_retire(x, t);
-        htp_tx_destroy(tx);
+        COST_API(htp_tx_destroy(tx));
         x->r->st.tx_destroyed_by_harness++;
     }
     htp_connp_tx_freed(p);
@@ -968,7 +983,7 @@ int hx_run(const hx_case *c, hx_result *r) {
         x->cfg = htp_config_copy(x->cfg_base);
         if (x->cfg == NULL) goto done;
     } else x->cfg = x->cfg_base;
-    x->connp = htp_connp_create(x->cfg);
+    COST_API(x->connp = htp_connp_create(x->cfg));
     if (x->connp == NULL) goto done;
     htp_connp_set_user_data(x->connp, x);
     if (c->cfg[CF_OPEN]) {
@@ -986,7 +1001,7 @@ int hx_run(const hx_case *c, hx_result *r) {
             case OP_REQ_CLOSE: {
                 struct timeval tv = { 2, 0 };
                 x->cur_dir = 3;
-                htp_connp_req_close(x->connp, &tv);
+                COST_API(htp_connp_req_close(x->connp, &tv));
                 x->cur_dir = 0;
                 boundary_checks(x);
                 /* request data after the request stream was closed would be API misuse */
@@ -998,7 +1013,7 @@ int hx_run(const hx_case *c, hx_result *r) {
             case OP_CLOSE: {
                 struct timeval tv = { 3, 0 };
                 x->cur_dir = 3;
-                htp_connp_close(x->connp, &tv);
+                COST_API(htp_connp_close(x->connp, &tv));
                 x->cur_dir = 0;
                 x->closed = 1;
                 boundary_checks(x);
@@ -1078,7 +1093,7 @@ int hx_run(const hx_case *c, hx_result *r) {
     }
 
 done:
-    if (x->connp) htp_connp_destroy_all(x->connp);
+    if (x->connp) COST_API(htp_connp_destroy_all(x->connp));
     if (x->cfg && x->cfg != x->cfg_base) htp_config_destroy(x->cfg);
     if (x->cfg_base) htp_config_destroy(x->cfg_base);
     hxa_counting = 0;
